@@ -386,6 +386,37 @@ Section Engine.
   Qed.
 End Engine.
 
+(* ---------- multi-key reads are slot-wise single-key reads ---------- *)
+(* MGET k1 .. kn: every reply slot is the single-key GET of exactly that argument (nil where GET refuses the
+   key); EXISTS k1 .. kn (n <> 1) counts exactly the arguments whose single-key EXISTS says 1 *)
+Theorem mget_slotwise compact now ks m :
+  Data.MapK.kquery compact now (Data.MapK.KQmget ks) m =
+  Data.Base.RArr (map (fun k => match Data.MapK.kquery compact now (Data.MapK.KQget k) m with
+                                | Data.Base.RErr => Data.Base.RNil
+                                | r => r
+                                end) ks).
+Proof.
+  cbn [Data.MapK.kquery]. f_equal. apply map_ext. intros k.
+  destruct (Data.Base.key_ok k); cbn [negb]; [|reflexivity].
+  destruct (Data.MapK.kget compact now k m); reflexivity.
+Qed.
+
+Theorem exists_slotwise compact now ks m : length ks <> 1%nat ->
+  Data.MapK.kquery compact now (Data.MapK.KQexists ks) m =
+  Data.Base.RInt (Z.of_nat (length (filter (fun k =>
+    match Data.MapK.kquery compact now (Data.MapK.KQexists [k]) m with Data.Base.RInt 1 => true | _ => false end) ks))).
+Proof.
+  intros Hl. cbn [Data.MapK.kquery].
+  assert (E : forall k, (Data.Base.key_ok k && match Data.MapK.kget compact now k m with Some _ => true | None => false end)%bool =
+                        match (if negb (Data.Base.key_ok k) then Data.Base.RErr
+                               else Data.Base.rbool match Data.MapK.kget compact now k m with Some _ => true | None => false end) with
+                        | Data.Base.RInt 1 => true | _ => false end).
+  { intros k. destruct (Data.Base.key_ok k); cbn [negb andb]; [|reflexivity].
+    destruct (Data.MapK.kget compact now k m); reflexivity. }
+  destruct ks as [|k0 [|k1 r]]; [reflexivity|cbn in Hl; congruence|].
+  do 3 f_equal. apply filter_ext. exact E.
+Qed.
+
 (* non-vacuity of the hypotheses on the score image: they hold for the float64 patterns of -inf, -1, 0, 1, +inf *)
 Definition ex_score_dom (s : Data.Base.score) : Prop :=
   match s with Data.Base.SFin z => (-1 <= z <= 1)%Z | _ => True end.
